@@ -5,6 +5,7 @@ CONSTANTS
   MAXLINES = 0
   MAXPIN = 0
   MAXDEPTH = 0
+  SUBIMPLS = {}
 SPECIFICATION TSpec
 INVARIANT Conform
 CHECK_DEADLOCK FALSE
